@@ -260,7 +260,7 @@ fn main() {
                     // a signal nobody watches must not kill the probe; a hang must
                     libc::signal(1, libc::SIG_IGN);
                     libc::signal(28, libc::SIG_IGN);
-                    libc::alarm(30);
+                    libc::alarm(8);
                 }
                 let mut out = Out(unsafe { std::fs::File::from_raw_fd(fds[1]) });
                 std::panic::set_hook(Box::new(|_| {}));
